@@ -22,8 +22,10 @@ func NewModel(opts ...resource.Option) *Model {
 	_, _ = value.Set(&traits.MeterReading{}, resource.InterceptBefore(func(old, new proto.Message) {
 		oldVal := old.(*traits.MeterReading)
 		newVal := new.(*traits.MeterReading)
+		// keep the configured reading, only fill in the times that are missing
+		proto.Merge(newVal, oldVal)
 		now := value.Clock().Now()
-		if oldVal.StartTime == nil {
+		if newVal.StartTime == nil {
 			newVal.StartTime = timestamppb.New(now)
 		}
 		if newVal.EndTime == nil {
